@@ -240,6 +240,90 @@ PROPS = {
             "is still restricted to key functions that do not modify the input",
         ],
     ),
+    "C06": dict(
+        prop_file="Properties/C06.v",
+        check_module="C06Check",
+        theorems={t: [] for t in [
+            "C06_stores_only_grow", "C06_capture_by_reference", "C06_write_seen_through_shared_cell",
+            "C06_iteration_cells_distinct_repeat", "C06_iteration_cells_distinct_foreach",
+            "C06_return_keeps_store", "C06_repeat_scope_exit", "C06_foreach_scope_exit",
+            "C06_reachable_states_well_formed", "C06_cell_outlives_scope", "C06_closure_body_identity"]},
+        n_quick=200, n_thorough=3000,
+        gen_timeout=3000,
+        release=False,
+        # Value.v (the float conversions RefSem uses) loads Flocq, whose real-number axioms are then in the
+        # context coqchk reports; no theorem of C06 depends on them (Print Assumptions: closed)
+        coqchk_axioms=REALS_AXIOMS,
+        gates=["ok", "corpus.S-1", "corpus.S-2", "corpus.S-3", "identity.sites", "identity.same_position_twins",
+               # nesting and non-local upvalues
+               "closure.depth2", "closure.depth3", "closure.depth4", "upvalue.nonlocal2", "upvalue.nonlocal3",
+               "closure.returns_closure", "closure.returned_by_closure_kept",
+               # frames: arguments, extra locals, call depth
+               "closure.frame_args0", "closure.frame_args1", "closure.frame_args2", "closure.frame_args3",
+               "closure.frame_args4", "closure.locals_before1", "closure.locals_before4",
+               "closure.calldepth1", "closure.calldepth2", "closure.calldepth3", "closure.calldepth4",
+               "closure.calldepth5", "closure.in_submodule",
+               # loops
+               "closure.in_repeat", "closure.in_foreach", "closure.in_while", "closure.in_nested_loop",
+               "capture.loopvar_i", "capture.loopvar_k", "capture.loopvar_v", "capture.while_counter",
+               "closure.loop_table", "call.all_of_table_after_loop",
+               # sharing
+               "siblings.idiom", "siblings.shared_written_var", "enclosing_write_after_capture",
+               "closure.writes_captured",
+               # storing, returning, passing
+               "closure.appended_to_table", "closure.in_array", "closure.in_record", "closure.stored_in_global",
+               "call.closure_in_table", "call.closure_in_record", "call.closure_in_global",
+               "closure.returned", "closure.returned_from_function", "closure.table_returned",
+               "closure.record_returned", "closure.table_returned_from_function",
+               "call.closure_argument_of_function", "call.closure_parameter",
+               "std.map", "std.filter", "std.any", "std.min_by_key", "std.sorted_by_key", "native.call1",
+               "call.late", "closure.called_on_the_spot", "dyncall", "dyncall.surplus_argument",
+               # what is captured
+               "capture.param", "shadow.loop_variable", "shadow.param", "capture.shadowing_variable",
+               "capture.many2", "capture.many3", "capture.many4", "capture.many5", "capture.many6",
+               "capture.many7", "capture.many8",
+               "statement_level_value", "junk_above_captured", "junk_above_captured_in_loop_body", "return_in_loop",
+               "closure.arity0", "closure.arity1", "closure.arity2", "closure.arity3"],
+        rule="the three witness programs of findings/C06 first, then random WELL-SCOPED programs (RefScope.well_scoped, re-checked per case in Coq) from a generator dedicated to "
+             "closures (harness/src/c06.rs): a chain of 1-5 functions with 0-4 parameters (main calls the last, each calls "
+             "the one below: closures are created at call depth 0-5 in frames with arguments and extra locals), apply "
+             "templates that call a callable parameter, twin functions with the same text shape in two modules, up to four "
+             "(sub)modules with function imports; closures nested to depth 4 (non-local upvalues of the grandparent and "
+             "great-grandparent function), with 0-3 parameters (some shadowing a visible variable), returning integers "
+             "or closures, created in Repeat / ForEach / While bodies (loop variables i / k / v and body locals "
+             "captured, tables of per-iteration closures called after the loop), sibling closures over one variable "
+             "interleaved with writes of the enclosing scope, 2-8 captured variables in one scope, statement-level "
+             "values above captured locals, closures in arrays / records / globals, returned from functions and "
+             "closures, passed to script functions, to std.map / filter / any / min_by_key / sorted_by_key and to the "
+             "re-entrant native call1, called 0-3 times in any order after the creating frame is gone; all values are "
+             "integers, integer tables, closures and tables of closures, so programs run to the end; each program runs "
+             "in a child process (60000 instructions; longer runs are skipped as resource errors and counted). "
+             "Oracle A: outcome kind, globals by name and native log against RefSem.eval_program. Oracle B "
+             "(independent of RefSem): every closure body logs its own tag first, every call site whose callee's "
+             "creating expression the generator knows logs a site marker just before the call, and the tag entry after "
+             "a marker in the observed log must be the tag the generator expects (pairs printed with the case); "
+             "non-trivial = the program has >= 12 of the counted features and was not skipped; distinct = distinct "
+             "case term",
+        trusted_base=COMMON_TB + [
+            "the reference semantics RefSem.v is the specification of oracle A: a hand-written big-step evaluator over "
+            "names and cells (no stack, no indices, no bytecode); the theorems of Properties/C06.v are about it; there "
+            "is no model of the compiler or VM in this check yet (the models follow the old upvalue encoding)",
+            "oracle B trusts the generator's bookkeeping of which closure expression reaches which call site; the "
+            "checker first requires the reference semantics itself to meet it (else code 3: generator defect)",
+            "StdlibGen.std_module: the card text of the std module as printed by the harness (generated file)",
+            "the harness printer from cao_lang::compiler::Module to CardAst terms (harness/src/c16.rs) and the "
+            "conversion of run-time values to trees (harness/src/c01.rs)",
+        ],
+        assumptions=[
+            "the claim is for well_scoped programs (see C01)",
+            "globals are compared by name with nil entries dropped on both sides; error KINDS are compared, not payloads",
+            "runs that end in Timeout / Stackoverflow / CallStackOverflow / OutOfMemory are skipped and counted",
+            "the theorems are about the reference semantics; the refinement theorem that ties Vm.v's open-upvalue list "
+            "to RefSem's cells is stated in a comment of Properties/C06.v and not proved",
+            "the iteration theorems speak about the unrolling relations repeat_iter / foreach_iter, which follow the "
+            "clauses of RefSem.F (tied to F by C06_repeat_scope_exit / C06_foreach_scope_exit)",
+        ],
+    ),
     "C15": dict(
         prop_file="Properties/C15.v",
         check_module="C15Check",
